@@ -39,7 +39,9 @@ def mant (s' : BitVec 64) : Nat := (s' >>> 41).toNat
 def affine {α : Type} [Add α] [Sub α] [Mul α] (unit start stop : α) : α :=
   unit * (stop - start) + start
 
-/-- `f32::from_bits(127 << 23 | m) - 1.0` as an exact rational: m / 2^23 (see `Props.C19.mantissa_unit`). -/
+/-- `f32::from_bits(127 << 23 | m) - 1.0` as an exact rational: m / 2^23. That the float expression equals this
+rational is not a theorem here; it is established by the exhaustive digest correspondence over all 2^23
+mantissas (`fdig` cases of the C19 check, thorough tier; a stratified 2^20 per range in the quick tier). -/
 def unitRat (m : Nat) : Rat := (m : Rat) / 8388608
 
 /-- Exact-arithmetic float sample. -/
